@@ -60,6 +60,7 @@ op_kinds!(
     OtherFile,
     FoldAll,
     SizeHint,
+    CompareFiles,
 );
 
 #[derive(Clone, Copy, Debug, PartialEq, Eq)]
@@ -122,6 +123,7 @@ counters!(
     op_OtherFile,
     op_FoldAll,
     op_SizeHint,
+    op_CompareFiles,
     fault_restart_aligned_midway,
     fault_restart_torn_inside_crlf,
     fault_restart_torn_other,
@@ -150,6 +152,7 @@ counters!(
     probe_lazy_index_first_touch,
     probe_index_cross_check,
     probe_other_file_built,
+    probe_compared_unequal_files_of_equal_length,
     yielded_lines,
     runs_trailing_variant,
     runs_small_scope,
@@ -194,6 +197,9 @@ pub fn generate(seed: u64, config: u64, scale_arg: u32) -> Case {
     if big && scale_allows_big(scale_arg) {
         // rare size classes (very long line, very many lines, beyond 2^16 bytes, 2^k line lengths)
         text = crate::bigtext::gen_big_text_scaled(&mut r, scale_arg > 1);
+    } else if r.chance(1, 150) {
+        // a handful of lines of ordinary source-file width
+        text = crate::bigtext::gen_medium_text(&mut r);
     } else if style < 25 {
         // dense small scope over the raw 6-symbol alphabet
         let n = r.below(6);
@@ -244,7 +250,7 @@ pub fn generate(seed: u64, config: u64, scale_arg: u32) -> Case {
     let trailing = r.chance(15, 100);
 
     // --- op mix for this run (swarm)
-    let mut w = [0u32; 22];
+    let mut w = [0u32; 23];
     let pickw = |r: &mut Rng, opts: &[u32]| *r.pick(opts);
     w[K::Next as usize] = pickw(&mut r, &[0, 2, 6, 10]);
     w[K::NextBack as usize] = pickw(&mut r, &[0, 2, 6, 10]);
@@ -261,6 +267,7 @@ pub fn generate(seed: u64, config: u64, scale_arg: u32) -> Case {
     w[K::SwitchHandle as usize] = pickw(&mut r, &[0, 1, 2]);
     w[K::OtherFile as usize] = pickw(&mut r, &[0, 1, 2]);
     w[K::SizeHint as usize] = pickw(&mut r, &[0, 0, 1]);
+    w[K::CompareFiles as usize] = pickw(&mut r, &[0, 0, 1]);
     if faults {
         w[K::RestartAligned as usize] = pickw(&mut r, &[0, 1, 3]);
         w[K::RestartTornFront as usize] = pickw(&mut r, &[0, 1, 2]);
@@ -1140,7 +1147,90 @@ impl<'t, 's> Exec<'t, 's> {
                 Ok(())
             }
             K::OtherFile => self.other_file(op),
+            K::CompareFiles => self.compare_files(op),
         }
+    }
+
+    /// `==` between a file handle of this run and a separately built sibling file (same text;
+    /// same text under another name; or a different text of the same name and byte length, the
+    /// "file before and after an edit" pair). The answer must be "same name and same text", and
+    /// the comparison must leave what both files answer untouched — whichever of the two had its
+    /// lazy index built at that moment.
+    fn compare_files(&mut self, op: Op) -> Res {
+        let text = self.text;
+        if text.len() > (1 << 20) {
+            return Ok(());
+        }
+        let files: Vec<usize> = (0..self.handles.len()).filter(|&i| matches!(self.handles[i], Handle::File(..))).collect();
+        if files.is_empty() {
+            return Ok(());
+        }
+        let hi = files[op.a as usize % files.len()];
+        let (sib_name, sib_text): (&str, String) = match op.b % 5 {
+            0 => ("sim.py", text.to_string()),
+            1 => ("other.py", text.to_string()),
+            2 | 3 => {
+                // first character moved to the end
+                let c = text.chars().next().map_or(0, |c| c.len_utf8());
+                ("sim.py", format!("{}{}", &text[c..], &text[..c]))
+            }
+            _ => ("sim.py", text.chars().rev().collect()),
+        };
+        let index_sibling_first = (op.c & 1) == 0;
+        let sibling_on_the_left = (op.c & 2) == 0;
+        let want_eq = sib_name == "sim.py" && sib_text == text;
+        if !want_eq && sib_name == "sim.py" {
+            self.stats.bump(C::probe_compared_unequal_files_of_equal_length as usize);
+        }
+        let sib_rows = model::rows(&sib_text);
+        let sib_bs = model::boundaries(&sib_text);
+        let so = sib_bs[(op.c >> 2) as usize % sib_bs.len()];
+        let sib_want = (sib_rows.len(), model::row_col(&sib_text, so), sib_rows[sib_rows.len() - 1]);
+        let bs = model::boundaries(text);
+        let o = bs[(op.a >> 3) as usize % bs.len()];
+        let n_rows = self.rows.len();
+        let want = (n_rows, model::row_col(text, o), self.rows[n_rows - 1]);
+        let Handle::File(sf, lazy) = &self.handles[hi] else { unreachable!() };
+        if *lazy && self.lazy_untouched {
+            self.lazy_untouched = false;
+        }
+        self.dg.word(so as u64);
+        let got = guarded(|| {
+            let sib = SourceFileBuilder::new(sib_name, sib_text.as_str()).finish();
+            if index_sibling_first {
+                let _ = sib.to_source_code().line_count();
+            }
+            let eq = if sibling_on_the_left { sib == *sf } else { *sf == sib };
+            let ne = if sibling_on_the_left { sib != *sf } else { *sf != sib };
+            let view = |f: &SourceFile, o: usize| {
+                let sc = f.to_source_code();
+                let n = sc.line_count();
+                let last = OneIndexed::from_zero_indexed(n as u32 - 1);
+                let loc = sc.source_location(ts(o));
+                (n, (loc.row.get(), loc.column.get()), (sc.line_start(last).to_usize(), sc.line_end(last).to_usize()))
+            };
+            (eq, ne, view(&sib, so), view(sf, o))
+        })
+        .map_err(|p| (format!("panic:{}", panic_class(&p)), p))?;
+        if got.0 != want_eq || got.1 == want_eq {
+            return Err((
+                "file-equality".to_string(),
+                format!("{:?} ({sib_name}) vs {:?} (sim.py): == gave {}, != gave {}, expected == to be {}", sib_text, text, got.0, got.1, want_eq),
+            ));
+        }
+        if got.2 != sib_want {
+            return Err((
+                "file-after-compare".to_string(),
+                format!("sibling {:?} after being compared with {:?}: (line_count, location of {so}, last row) = {:?}, model {:?}", sib_text, text, got.2, sib_want),
+            ));
+        }
+        if got.3 != want {
+            return Err((
+                "file-after-compare".to_string(),
+                format!("file {:?} after being compared with {:?}: (line_count, location of {o}, last row) = {:?}, model {:?}", text, sib_text, got.3, want),
+            ));
+        }
+        Ok(())
     }
 
     /// Query another lazily indexed file of this run against its own model.
